@@ -20,6 +20,8 @@
 (*                interpreter; r has in addition                           *)
 (*        fresh      digest of the result there                            *)
 (*        freshdefs  <<default-argument name, digest>> there, before it    *)
+(*        asbuilt    1 if the arguments built anew there have the digests  *)
+(*                   of the objects the history process passed             *)
 (*   <<"end", n>>    the process made n calls                              *)
 (* State st: History!EmptyHistory updated by every call.                   *)
 (***************************************************************************)
@@ -38,7 +40,10 @@ ProbeOf(r) == CallOf(r) @@ [fresh |-> r.fresh, freshdefs |-> SeqSet(r.freshdefs)
 
 Checks(e) ==
   CASE e[1] = "call"  -> CallClauses(st, CallOf(e[2])) @@ [MemoIsFunction |-> MemoIsFunction(st)]
-    [] e[1] = "probe" -> ProbeClauses(st, ProbeOf(e[2])) @@ [MemoIsFunction |-> MemoIsFunction(st)]
+    [] e[1] = "probe" -> ProbeClauses(st, ProbeOf(e[2])) @@ [MemoIsFunction |-> MemoIsFunction(st),
+                             \* the argument objects the history process passes equal the same arguments built anew
+                             \* (no earlier call of the history has changed them)
+                             ProbeArgumentsAsBuilt |-> e[2].asbuilt = 1]
     [] e[1] = "end"   -> [AllCallsJudged |-> e[2] = st.n /\ ei = Len(Tr.ev),
                           ProbeJudged    |-> st.probes >= 1]
     [] OTHER -> [UnknownEvent |-> FALSE]
